@@ -160,10 +160,17 @@ impl CharProperty {
                 let (category, invoke, group, length) = Self::parse_char_category(line)?;
                 let new_cate_id = u32::try_from(cate_map.len()).unwrap();
                 let cate_id = *cate_map.entry(category).or_insert(new_cate_id);
-                cate2info.insert(
-                    cate_id,
-                    CharInfo::new(0, cate_id, invoke, group, length).unwrap(),
-                );
+                if usize::from_u32(cate_id) >= CATE_IDSET_BITS {
+                    let msg = format!(
+                        "The number of character categories must be no more than {CATE_IDSET_BITS}, {line}"
+                    );
+                    return Err(VibratoError::invalid_format("char.def", msg));
+                }
+                let cinfo = CharInfo::new(0, cate_id, invoke, group, length).ok_or_else(|| {
+                    let msg = format!("LENGTH must be less than {}, {line}", 1 << LENGTH_BITS);
+                    VibratoError::invalid_format("char.def", msg)
+                })?;
+                cate2info.insert(cate_id, cinfo);
             } else {
                 char_ranges.push(Self::parse_char_range(line)?);
             }
